@@ -227,6 +227,8 @@ def gen_sorter_cases(rng, n, thorough):
         kind = str(rng.choice(["circle", "ellipse", "lattice", "irregular", "noisy", "clustered", "random", "dupes"]))
         big = rng.integers(0, 10) == 0
         npts = int(rng.integers(8, 401 if big else (120 if not thorough else 200)))
+        if rng.integers(0, 12) == 0:
+            npts = int(rng.integers(1, 8))  # tiny point sets (1..7 points) are planar point sets too
         if kind == "circle":
             t = np.linspace(0, 2 * np.pi, npts, endpoint=False)
             x, y = np.cos(t), np.sin(t)
@@ -478,6 +480,10 @@ def knn_lists(x, y):
     from sklearn.neighbors import NearestNeighbors
 
     pts = np.c_[x, y]
+    if len(pts) < 3:
+        # no 2-nearest-neighbour graph exists; the sorter returns its input unchanged, which is what the
+        # model yields on an adjacency without real edges (self loops), continuing at the nearest unvisited point
+        return [i for i in range(len(pts)) for _ in range(2)]
     G = NearestNeighbors(n_neighbors=2).fit(pts).kneighbors_graph()
     ind, ptr = G.indices, G.indptr
     if not all(ptr[i + 1] - ptr[i] == 2 for i in range(len(x))):
@@ -636,8 +642,8 @@ def hdc_phase1(ck, case):
             # the property's scope (alpha <= 0.3 on a grid that resolves the region); counted
             rec = impl.get("rec", {})
             nb = int(np.count_nonzero(rec.get("label_in", np.zeros(1))))
-            if nb >= 3:
-                ck.fail({"entry": ENTRY_HDC, "predicate": "coordinates_returned"}, case, f"ValueError with {nb} boundary cells: {impl['msg']}")
+            # the point sorter must return a permutation of ANY planar point set, also of 1 or 2 boundary cells
+            ck.fail({"entry": ENTRY_HDC, "predicate": "coordinates_returned"}, case, f"ValueError with {nb} boundary cells: {impl['msg']}")
             return
         if impl["err"] == "ValueError" and "nan" in impl.get("msg", ""):
             return
@@ -895,7 +901,7 @@ def main(ck):
         "scipy.ndimage.label is a labelling (label > 0 iff mask, labels onto 1..m): checked on every label array _compute produced",
         "sklearn k-NN lists are passed to the model (leaf); they stay inside 0..n-1: evaluated by the driver (closedB)",
         "'one coordinate set per region' is read as one set per connected component (3^n connectivity) of the boundary mask, which is what the anchors name; a region with a hole has two boundary components",
-        "a single 2-D boundary component with fewer than 3 cells cannot be ordered (sklearn refuses 2 neighbours): counted, not judged",
+        "a 2-D boundary component of 1 or 2 cells is returned unsorted (nothing to sort); before the repair the sorter raised ValueError there",
     ]
     ck.partial = {
         "ndimage.label / binary_erosion": "leaves; their outputs are compared with the model's boundary mask and components on every case",
